@@ -419,6 +419,18 @@ func weightToken(w float32) string {
 	return fmt.Sprintf("?(%v)", w)
 }
 
+// kkey refines a model key into a concrete key; the variants use spellings an engine might treat specially
+// (prefixes of former internal key spaces, separators, control bytes) -- a key is an opaque byte string
+func (r *Runner) kkey(tok string) string {
+	switch r.P.Variant % 3 {
+	case 1:
+		return "rel:" + tok
+	case 2:
+		return "rev:" + tok + "::x \r\n"
+	}
+	return tok
+}
+
 // kval: binary-unfriendly bytes; in large-record profiles (Dim > 3) padded to several hundred bytes so that
 // KV records are larger than a VCREATE record
 func (r *Runner) kval(tok string) []byte {
@@ -546,9 +558,9 @@ func (r *Runner) exec(op map[string]any) (string, error) {
 	e := r.E
 	switch str(op, "op") {
 	case "KVSet":
-		return res(e.KVSet(str(op, "k"), r.kval(str(op, "v"))))
+		return res(e.KVSet(r.kkey(str(op, "k")), r.kval(str(op, "v"))))
 	case "KVDelete":
-		return res(e.KVDelete(str(op, "k")))
+		return res(e.KVDelete(r.kkey(str(op, "k"))))
 	case "VCreate":
 		c, err := r.cfg(str(op, "cfg"))
 		if err != nil {
@@ -822,7 +834,7 @@ func (r *Runner) Observe() (obs map[string]any) {
 
 	kv := map[string]any{}
 	for _, k := range r.P.Keys {
-		if v, ok := e.KVGet(k); ok {
+		if v, ok := e.KVGet(r.kkey(k)); ok {
 			kv[k] = r.ktoken(v)
 		} else {
 			kv[k] = Nil
@@ -830,7 +842,7 @@ func (r *Runner) Observe() (obs map[string]any) {
 	}
 	known := map[string]bool{}
 	for _, k := range r.P.Keys {
-		known[k] = true
+		known[r.kkey(k)] = true
 	}
 	e.DB.IterateKV(func(p core.KVPair) {
 		if !known[p.Key] && !strings.HasPrefix(p.Key, "_sys_") {
